@@ -20,6 +20,11 @@ stdin: {"mode": ..., "cases": [...]}
                    graph, and the migration rate in force for every ordered pair of demes at times u next to the input graph's
   native ops     : ["phi_1D", nu] ["integrate", T, [sizefn..], [[M row]..] | None, [frozen..] | None] ["split", k] ["admix_new", [f..]]
                    ["pulse", dest, [f..]] ["remove", k] ["reorder", [order]] ;  sizefn = ["c", v] | ["e", v0, v1] | ["l", v0, v1]
+  self-protection: a size FUNCTION handed to an integrator (outermost call) is probed at 17 times of [0, T]; a value that is
+                   not positive / not finite raises NonPositiveSize before the integrator is entered (its time step would collapse
+                   and the run never end); every unit of work (one from_demes run, one numeric job, one export round trip) has a
+                   wall-clock limit (Watchdog; payload key unit_timeout, default 90 s, 25 s after the first one that fired).  Both
+                   appear as the `error` of that unit.
 stdout (last line): list of results
 """
 import sys, json, warnings, inspect, math, copy, traceback
@@ -68,6 +73,30 @@ def encode(name, ba):
         args[k] = enc_val(v, T)
     return {'fn': name, 'args': args}
 
+class NonPositiveSize(ValueError):
+    pass
+
+GUARD_PROBES = 16
+
+def guard_sizes(name, ba):
+    """the harness protecting itself: a size FUNCTION handed to an integrator that is not positive (or not finite) somewhere in
+    [0, T] makes the integrator's time step collapse (the run never ends) - it is reported as an error of the call instead.
+    No deme of a demes graph, and no program of the generators, has a non-positive size."""
+    T = ba.arguments.get('T')
+    if not T or not (T > 0) or T == float('inf'):
+        return
+    ids = ba.arguments.get('deme_ids')
+    for k, v in ba.arguments.items():
+        if k.rstrip('12345') == 'nu' and callable(v):
+            for j in range(GUARD_PROBES + 1):
+                t = T * j / GUARD_PROBES
+                x = float(v(t))
+                if not (x > 0) or x == float('inf'):
+                    pop = int(k[2:]) if k[2:] else 1
+                    who = ' (deme %s)' % ids[pop - 1] if ids is not None and len(ids) >= pop else ''
+                    raise NonPositiveSize('%s receives for %s%s a size function with value %r at t=%r of T=%r (value %r at t=0)'
+                                          % (name, k, who, x, t, T, float(v(0.0))))
+
 def wrap(mod, name, static=False):
     f = getattr(mod, name)
     sig = inspect.signature(f)
@@ -76,6 +105,8 @@ def wrap(mod, name, static=False):
             ba = sig.bind(*a, **k)
             ba.apply_defaults()
             LOG.append(encode(name, ba))
+            if name in INTEG_FUNCS:
+                guard_sizes(name, ba)
             if FIX_FROZEN[0] is not None and name in INTEG_FUNCS:
                 # reference run: the frozen flags are decided by the deme labels, whatever the caller wired
                 ids = list(ba.arguments['deme_ids'])
@@ -461,19 +492,44 @@ def run_export(c):
         rec['events1'] = events_dict(ORACLE[-1][1])
     return rec
 
+class Watchdog(Exception):
+    pass
+
+WATCH = {'limit': 90.0, 'after_first': 25.0, 'fired': 0}
+
+def _alarm(signum, frame):
+    raise Watchdog('the run did not end within %g s of wall time' % WATCH['current'])
+
+def watch(on=True):
+    """wall-clock limit for ONE unit of work (one from_demes run / one numeric job / one export round trip).  A unit takes well
+    under a second on the grids of this check (a few seconds on an oversubscribed machine); a run that has not ended after
+    90 s is reported as an error of that unit instead of blocking the whole check (after the first such unit: 25 s)."""
+    import signal
+    if on:
+        WATCH['current'] = WATCH['limit'] if not WATCH['fired'] else WATCH['after_first']
+        signal.signal(signal.SIGALRM, _alarm)
+        signal.setitimer(signal.ITIMER_REAL, WATCH['current'])
+    else:
+        signal.setitimer(signal.ITIMER_REAL, 0)
+
 def main():
     payload = json.load(sys.stdin)
     mode = payload['mode']
+    if payload.get('unit_timeout'):
+        WATCH['limit'] = float(payload['unit_timeout'])
     out = []
     for c in payload['cases']:
         rec = {'id': c['id']}
         try:
+            if mode != 'numeric':
+                watch(True)
             if mode == 'log':
                 run_demes(c, rec=rec)
             elif mode == 'numeric':
                 res = []
                 for j in c['jobs']:
                     try:
+                        watch(True)
                         if j['kind'] == 'demes':
                             r = run_demes(j, want_log=bool(j.get('log')))
                         elif j['kind'] == 'native':
@@ -485,7 +541,11 @@ def main():
                         else:
                             raise ValueError(j['kind'])
                     except Exception as e:
+                        if isinstance(e, Watchdog):
+                            WATCH['fired'] += 1
                         r = {'error': type(e).__name__ + ': ' + str(e)[:300], 'tb': traceback.format_exc()[-800:]}
+                    finally:
+                        watch(False)
                     res.append(r)
                 rec['jobs'] = res
             elif mode == 'export':
@@ -495,8 +555,12 @@ def main():
             else:
                 raise ValueError(mode)
         except Exception as e:
+            if isinstance(e, Watchdog):
+                WATCH['fired'] += 1
             rec['error'] = type(e).__name__ + ': ' + str(e)[:300]
             rec['tb'] = traceback.format_exc()[-1200:]
+        finally:
+            watch(False)
         out.append(rec)
     print(json.dumps(out))
 
